@@ -29,6 +29,7 @@ WrapOK(a, lo, hi, r, slack) ==
 \*                 (the vector and its round trip) scaled a further 1024 times
 \*        "vec3":  the same with spherical (r, az, alt)
 \*        "pyth3": spherical(R, az of (cx, sz)/kd, alt of (ch, sy)/m) -> cart must be R*(ch*cx/(kd*m), sy/m, ch*sz/(kd*m))
+\*        "polbig" / "convx": see below
 \*        "trig":  s, c from sin(), cos(); s2, c2 from sin_cos(); scale 16384
 Allowed(e) ==
   CASE e.op = "conv" ->
@@ -78,6 +79,20 @@ Allowed(e) ==
          /\ (e.v[3] > 8 => e.az > 0) /\ (e.v[3] < -8 => e.az < 0)
          /\ (e.v[1] > 8 => Abs(e.az) < 90 * 64 + 2) /\ (e.v[1] < -8 => Abs(e.az) > 90 * 64 - 2)
          /\ \A i \in 1..3 : Near(e.back[i], e.vf[i], (big * 1024) \div 20000 + 8)
+    [] e.op = "polbig" ->
+         \* polar(R, a).to_cart() = R (cos a, sin a) with cos, sin those of the SAME angle value (scale 65536);
+         \* spherical(R, a, 0) lies in the x-z plane at the same azimuth
+         /\ e.panic = 0
+         /\ Near(e.x, e.R * e.c, 4 + e.R) /\ Near(e.y, e.R * e.s, 4 + e.R)
+         /\ Near(e.sx, e.R * e.c, 4 + e.R) /\ Near(e.sz, e.R * e.s, 4 + e.R)
+    [] e.op = "convx" ->
+         \* an angle of 2^kx in unit u (e.ed / er / et: floor(log2) of its value in degrees / radians / turns,
+         \* 999 = not finite): degrees = turns * 360 (2^8.49), radians = turns * 6.28 (2^2.65); a value is
+         \* finite whenever its binade is below 2^127
+         LET kt == CASE e.u = "turn" -> e.kx [] e.u = "deg" -> e.kx - 9 [] OTHER -> e.kx - 3     \* binade of the turns (+-1)
+             Fits(k, ob) == (k <= 125 => ob # 999) /\ (ob # 999 /\ ob # -999 => ob \in (k - 1)..(k + 1))
+         IN /\ e.panic = 0
+            /\ Fits(kt, e.et) /\ Fits(kt + 2, e.er - 1 + 1) /\ Fits(kt + 8, e.ed)
     [] e.op = "trig" ->
          /\ e.panic = 0
          /\ e.s2 = e.s /\ e.c2 = e.c
